@@ -11,7 +11,7 @@ export CARGO_TARGET_DIR="$WT-target" CARGO_NET_OFFLINE=true
 cd "$WT"
 git apply "$SD/patch.diff" || { echo "PATCH DOES NOT APPLY"; exit 3; }
 echo "== existing tests of $CRATE with the patch"
-cargo test -p "$CRATE" --offline "$@" 2>&1 | grep -E "^test result|FAILED|failed|error(\[|:)" | head -20
+cargo test -p "$CRATE" --offline --no-fail-fast "$@" 2>&1 | grep -E "^test result|FAILED|failed|error(\[|:)" | head -40
 name="$(basename "$DEMO" .rs)"
 mkdir -p "$WT/$CRATE/tests"; cp "$SD/$DEMO" "$WT/$CRATE/tests/$name.rs"
 echo "== demonstration WITH the patch (expected to fail)"
